@@ -426,9 +426,27 @@ def _post_circuit(mon, call):
     mon.ok(name)
 
 
+class OneShot:
+    """a one-shot iterable of operations (the signature says Iterable): can be walked exactly once; the monitor
+    reads what it held from ``_rv_items``"""
+
+    def __init__(self, items):
+        self._rv_items = list(items)
+        self._it = iter(self._rv_items)
+
+    def __iter__(self):
+        return self
+
+    def __next__(self):
+        return next(self._it)
+
+
 def _post_operations(mon, call):
     name = "operations"
     ops, rules = _get(call, 0, "operations"), _get(call, 1, "decomposition_rules")
+    if isinstance(ops, OneShot):
+        ops = ops._rv_items
+        mon.note("operations:one-shot-iterable")
     if not _ops_in_domain(ops) or not _rules_known(rules):
         mon.out_of_domain(name)
         return
@@ -848,6 +866,7 @@ def run_case(ctx):
             ops.append(rng.choice([rand_u3_op(rng, n), rand_other_op(rng, n), Z(rng.randrange(n)),
                                    S(rng.randrange(n)), X(rng.randrange(n))]))
         ctx.describe(f"direct operations {_show_ops(ops)} rules={_show_rules(rules)}", _nontrivial_circuit(ops))
-        decompose_operations(ops if rng.random() < 0.5 else tuple(ops), rules)
+        r = rng.random()
+        decompose_operations(ops if r < 0.35 else (tuple(ops) if r < 0.6 else OneShot(ops)), rules)
         return
     raise ValueError(cls)
